@@ -353,3 +353,274 @@ def o7_2_confirm(v, out):
 def o7_2_witness_ok(w, out):
     if out.get('_rc') != 0: return False
     return [int(x) for x in out['files'].split(',') if x] == w['executor_result']
+
+
+# ---------------------------------------------------------------- O7.3 add_boundary_inputs
+def o7_3_boundary_inputs(mir, tier):
+    """After add_boundary_inputs no file of the level outside the chosen set starts with the chosen set's largest user key
+    at a larger internal key (a user key would be split between the compacted and the remaining files)."""
+    fn = mir.method('CompactionManifest', 'add_boundary_inputs')
+    N = 4 if tier == 'thorough' else 3
+    res = Result('O7.3 CompactionManifest::add_boundary_inputs', [fn.path, 'find_largest_key', 'find_smallest_boundary_file'],
+                 'level of 1..%d files (sorted, disjoint in internal-key order; user keys may touch), every non-empty and empty chosen subset' % N)
+    t0 = time.time()
+    for n in range(1, N + 1):
+        for mask in range(0, 1 << n):
+            chosen = [i for i in range(n) if mask >> i & 1]
+            w = World(mir)
+            files = [w.file('f%d' % i, number=i + 1) for i in range(n)]
+            F = [w.F(f) for f in files]
+            pre = list(w.pre) + sorted_disjoint(F)
+            ex = Exec(mir, base_summaries(mir), loop_bound=n + 3)
+            def k(ret, env, pc, F=F, n=n, ex=ex, chosen=chosen):
+                out = env['$comp']
+                got = []
+                for f in out:
+                    num = f[mir.field('FileMetadata', 'file_number')]
+                    got.append(simplify(num).as_long() - 1)
+                posts = [('chosen files were removed or reordered', BoolVal(got[:len(chosen)] == chosen)),
+                         ('a file was added twice', BoolVal(len(set(got)) == len(got)))]
+                if got:
+                    # largest key of the result set
+                    for j in range(n):
+                        if j in got: continue
+                        split = Or(*[And(F[i]['lg'][0] == F[j]['sm'][0], klt(F[i]['lg'], F[j]['sm']),
+                                         And(*[kle(F[x]['lg'], F[i]['lg']) for x in got])) for i in got])
+                        posts.append(('a user key is split: a remaining file starts with the largest user key of the compaction inputs', Not(split)))
+                    for j in got[len(chosen):]:
+                        # every added file is justified: it starts with the user key some earlier input ends with
+                        idx = got.index(j)
+                        just = Or(*[And(F[i]['lg'][0] == F[j]['sm'][0], klt(F[i]['lg'], F[j]['sm'])) for i in got[:idx]]) if idx else BoolVal(False)
+                        posts.append(('a file that is not a boundary file was added', just))
+                else:
+                    posts.append(('files were added to an empty input set', BoolVal(True)))
+                def argv(m): return ['add_boundary_inputs', ','.join(map(str, chosen)) or '-'] + _files_argv(m, F)
+                bad = False
+                for label, post in posts:
+                    ex.record_formula(label, pc, Not(post))
+                    m = ex.model(Not(post))
+                    if m is not None:
+                        bad = True; res.violations.append({'label': label, 'n': n, 'chosen': chosen, 'executor_result': [g + 1 for g in got], 'replay': argv(m)})
+                if not bad and len(got) > len(chosen) and len(res.witnesses) < 4:
+                    res.witnesses.append({'executor_result': [g + 1 for g in got], 'replay': argv(ex.model())})
+            env = {'$state': {}, '$level': files, '$comp': [files[i] for i in chosen]}
+            ex.top(fn, [Ref('$level'), Ref('$comp')], env, pre, k)
+            res.absorb(ex)
+            for pc, msg, where in ex.panics:
+                res.panic_paths += 1; res.violations.append({'label': 'panic path: ' + msg[:80], 'n': n, 'replay': None})
+    res.wall_s = time.time() - t0
+    if res.violations: res.status = 'violation'
+    return res
+
+
+def _pf(tok):
+    p = tok.split(':'); return {'num': int(p[0]), 'size': int(p[1]), 'sm': (int(p[2], 16), int(p[3])), 'lg': (int(p[4], 16), int(p[5]))}
+
+
+def _ref_boundary(files, chosen):
+    got = list(chosen)
+    if not got: return got
+    while True:
+        lg = max((files[i]['lg'] for i in got), key=_kcmp_key)
+        cands = [j for j in range(len(files)) if _kcmp_key(files[j]['sm']) > _kcmp_key(lg) and files[j]['sm'][0] == lg[0]]
+        if not cands: return got
+        j = min(cands, key=lambda j: _kcmp_key(files[j]['sm']))
+        if j in got: return got
+        got.append(j)
+
+
+def o7_3_confirm(v, out):
+    if out.get('_rc') != 0: return (False, 'native run failed: %s' % out.get('_stderr', '')[-200:])
+    chosen = [int(x) for x in v['replay'][1].split(',')] if v['replay'][1] != '-' else []
+    files = [_pf(t) for t in v['replay'][2:]]
+    exp = [files[i]['num'] for i in _ref_boundary(files, chosen)]
+    got = [int(x) for x in out['files'].split(',') if x]
+    return (got != exp, 'native %s, reference %s' % (got, exp))
+
+
+def o7_3_witness_ok(w, out):
+    return out.get('_rc') == 0 and [int(x) for x in out['files'].split(',') if x] == w['executor_result']
+
+
+# ---------------------------------------------------------------- O7.4a some_file_overlaps_range
+def _levels_argv(m, lv):
+    out = []
+    for l in sorted(lv):
+        out.append('@%d' % l); out += _files_argv(m, lv[l])
+    return out
+
+
+def o7_4a_some_file_overlaps(mir, tier):
+    fn = mir.method('Version', 'some_file_overlaps_range')
+    N = 4 if tier == 'thorough' else 3
+    res = Result('O7.4a Version::some_file_overlaps_range', [fn.path, 'find_file_with_upper_bound_range (inlined)'],
+                 '0..%d files, disjoint-sorted and unsorted mode, every combination of open/closed range ends' % N)
+    t0 = time.time()
+    for disjoint in (False, True):
+        for n in range(0, N + 1):
+            for has_s, has_l in itertools.product((False, True), repeat=2):
+                w = World(mir)
+                files = [w.file('f%d' % i, number=i + 1) for i in range(n)]
+                F = [w.F(f) for f in files]
+                s_u, l_u = BitVec('qs', 16), BitVec('ql', 16)
+                pre = list(w.pre) + [kle(f['sm'], f['lg']) for f in F]
+                if disjoint: pre += sorted_disjoint(F)
+                if has_s and has_l: pre.append(ULE(s_u, l_u))
+                ex = Exec(mir, base_summaries(mir), loop_bound=n + 3)
+                def k(ret, env, pc, F=F, ex=ex, has_s=has_s, has_l=has_l, disjoint=disjoint, n=n):
+                    ref = Or(*[And(Not(ULT(f['lg'][0], s_u)) if has_s else BoolVal(True), Not(ULT(l_u, f['sm'][0])) if has_l else BoolVal(True)) for f in F]) if F else BoolVal(False)
+                    label = 'result differs from "some file has a user range intersecting the query range"'
+                    post = ret == ref
+                    def argv(m): return ['some_file_overlaps', '1' if disjoint else '0', key_bytes(mval(m, s_u)) if has_s else 'none', key_bytes(mval(m, l_u)) if has_l else 'none'] + _files_argv(m, F)
+                    ex.record_formula(label, pc, Not(post))
+                    m = ex.model(Not(post))
+                    if m is not None:
+                        res.violations.append({'label': label + (' (disjoint mode)' if disjoint else ' (level-0 mode)'), 'n': n, 'executor_result': mval(m, ret), 'replay': argv(m)})
+                    elif len(res.witnesses) < 4 and n >= 2 and has_s and has_l:
+                        m = ex.model(); res.witnesses.append({'executor_result': mval(m, ret), 'replay': argv(m)})
+                env = {'$state': {}, '$files': files, '$s': s_u, '$l': l_u}
+                ex.top(fn, [BoolVal(disjoint), Ref('$files'), Enum('Some', (Ref('$s'),)) if has_s else Enum('None'), Enum('Some', (Ref('$l'),)) if has_l else Enum('None')], env, pre, k)
+                res.absorb(ex)
+                for pc, msg, where in ex.panics:
+                    res.panic_paths += 1; res.violations.append({'label': 'panic path: ' + msg[:80], 'n': n, 'replay': None})
+    res.wall_s = time.time() - t0
+    if res.violations: res.status = 'violation'
+    return res
+
+
+def o7_4a_confirm(v, out):
+    if out.get('_rc') != 0: return (False, 'native run failed: %s' % out.get('_stderr', '')[-200:])
+    a = v['replay']; s = None if a[2] == 'none' else int(a[2], 16); l = None if a[3] == 'none' else int(a[3], 16)
+    files = [_pf(t) for t in a[4:]]
+    exp = any(not (s is not None and f['lg'][0] < s) and not (l is not None and l < f['sm'][0]) for f in files)
+    got = out['overlaps'] == 'true'
+    return (got != exp, 'native %s, reference %s' % (got, exp))
+
+
+def o7_4a_witness_ok(w, out):
+    return out.get('_rc') == 0 and (out['overlaps'] == 'true') == bool(w['executor_result'])
+
+
+# ---------------------------------------------------------------- O7.4b is_base_level_for_key
+def mk_compaction_manifest(mir, level, version, inputs0=(), inputs1=()):
+    node = mir.mk_struct('Node', element=version)
+    return mir.mk_struct('CompactionManifest', level=bv(level), maybe_input_version=Enum('Some', (node,)),
+                         base_level_pointers=[bv(0)] * 7, input_files=[list(inputs0), list(inputs1)], overlapping_grandparents=[],
+                         grandparent_index=bv(0), current_overlapping_bytes=bv(0), is_overlappping=BoolVal(False),
+                         max_output_file_size_bytes=BitVec('max_out', 64), change_manifest={'abstract': True, '__ty': 'VersionChangeManifest'})
+
+
+def o7_4b_base_level(mir, tier):
+    fn = mir.method('CompactionManifest', 'is_base_level_for_key')
+    shapes = [(2, 0), (0, 2), (2, 1), (1, 2)] if tier == 'quick' else [(a, b) for a in range(0, 4) for b in range(0, 3)]
+    res = Result('O7.4b CompactionManifest::is_base_level_for_key', [fn.path],
+                 'compaction level 0; files at levels 2 and 3 in shapes %s (sorted, disjoint); two successive calls with ascending keys' % (shapes,))
+    t0 = time.time()
+    for (n2, n3) in shapes:
+        w = World(mir)
+        lv = {2: [w.file('a%d' % i, number=20 + i) for i in range(n2)], 3: [w.file('b%d' % i, number=30 + i) for i in range(n3)]}
+        LF = {l: [w.F(f) for f in fs] for l, fs in lv.items()}
+        k1, k2 = w.key('k1'), w.key('k2'); K1, K2 = w.K(k1), w.K(k2)
+        pre = list(w.pre) + sorted_disjoint(LF[2]) + sorted_disjoint(LF[3]) + [kle(K1, K2)]
+        ex = Exec(mir, base_summaries(mir), loop_bound=n2 + n3 + 9)
+        def contains(K): return Or(*[And(ULE(f['sm'][0], K[0]), ULE(K[0], f['lg'][0])) for l in (2, 3) for f in LF[l]]) if (n2 + n3) else BoolVal(False)
+        def argv(m): return ['base_level', '0', '%s:%d,%s:%d' % (key_bytes(mval(m, K1[0])), mval(m, K1[1]), key_bytes(mval(m, K2[0])), mval(m, K2[1]))] + _levels_argv(m, LF)
+        def after1(r1, env, pc):
+            def after2(r2, env2, pc2):
+                bad = False
+                for label, post in (('first call: result differs from "no file in levels >= L+2 contains the user key"', r1 == Not(contains(K1))),
+                                    ('second call (ascending key): result differs from "no file in levels >= L+2 contains the user key"', r2 == Not(contains(K2)))):
+                    ex.record_formula(label, pc2, Not(post))
+                    m = ex.model(Not(post))
+                    if m is not None:
+                        bad = True; res.violations.append({'label': label, 'shape': [n2, n3], 'executor_result': [mval(m, r1), mval(m, r2)], 'replay': argv(m)})
+                if not bad and len(res.witnesses) < 4:
+                    m = ex.model(); res.witnesses.append({'executor_result': [mval(m, r1), mval(m, r2)], 'replay': argv(m)})
+            ex.run_fn(fn, [Ref('$cm'), Ref('$k2')], env, pc, after2)
+        env = {'$state': {}, '$cm': mk_compaction_manifest(mir, 0, mk_version(mir, lv)), '$k1': k1, '$k2': k2}
+        ex.top(fn, [Ref('$cm'), Ref('$k1')], env, pre, after1)
+        res.absorb(ex)
+        for pc, msg, where in ex.panics:
+            res.panic_paths += 1; res.violations.append({'label': 'panic path: ' + msg[:80], 'shape': [n2, n3], 'replay': None})
+    res.wall_s = time.time() - t0
+    if res.violations: res.status = 'violation'
+    return res
+
+
+def _parse_levels(toks):
+    lv, cur = {}, None
+    for t in toks:
+        if t.startswith('@'): cur = int(t[1:]); lv[cur] = []
+        else: lv[cur].append(_pf(t))
+    return lv
+
+
+def o7_4b_confirm(v, out):
+    if out.get('_rc') != 0: return (False, 'native run failed: %s' % out.get('_stderr', '')[-200:])
+    a = v['replay']; keys = [int(k.split(':')[0], 16) for k in a[2].split(',')]
+    lv = _parse_levels(a[3:])
+    exp = [not any(f['sm'][0] <= k <= f['lg'][0] for l in lv for f in lv[l]) for k in keys]
+    got = [x == '1' for x in out['base'].split(',')]
+    return (got != exp, 'native %s, reference %s' % (got, exp))
+
+
+def o7_4b_witness_ok(w, out):
+    return out.get('_rc') == 0 and [x == '1' for x in out['base'].split(',')] == [bool(x) for x in w['executor_result']]
+
+
+# ---------------------------------------------------------------- O7.4c pick_level_for_memtable_output
+def o7_4c_pick_level(mir, tier):
+    fn = mir.method('Version', 'pick_level_for_memtable_output')
+    shapes = [(1, 1, 1, 1), (2, 0, 1, 0), (0, 2, 0, 1), (0, 0, 2, 2)] if tier == 'quick' else [s for s in itertools.product(range(0, 3), repeat=4) if sum(s) <= 5]
+    res = Result('O7.4c Version::pick_level_for_memtable_output', [fn.path, 'has_overlap_in_level', 'some_file_overlaps_range', 'get_overlapping_compaction_inputs', 'sum_file_sizes'],
+                 'files at levels 0..3 in shapes %s; free flush range; max_file_size <= 2^40, file sizes <= 2^40' % (shapes if tier == 'quick' else '%d shapes with <= 5 files' % len(shapes),))
+    t0 = time.time()
+    S = base_summaries(mir)
+    mfs = BitVec('max_file_size', 64)
+    S['$patterns'][r'DbOptions::max_file_size'] = lambda se, env, pc, o: lib.one(env, mfs)
+    for shape in shapes:
+        w = World(mir)
+        lv = {l: [w.file('L%d_%d' % (l, i), number=10 * l + i + 1) for i in range(shape[l])] for l in range(4)}
+        LF = {l: [w.F(f) for f in fs] for l, fs in lv.items()}
+        s_u, l_u = BitVec('qs', 16), BitVec('ql', 16)
+        pre = list(w.pre) + [ULE(s_u, l_u), ULE(mfs, bv(1 << 40))]
+        for l in range(4):
+            pre += [kle(f['sm'], f['lg']) for f in LF[l]] + [ULE(f['size'], bv(1 << 40)) for f in LF[l]]
+            if l > 0: pre += sorted_disjoint(LF[l])
+        ex = Exec(mir, S, loop_bound=sum(shape) + 6)
+        def ov(l): return Or(*[And(ULE(f['sm'][0], l_u), ULE(s_u, f['lg'][0])) for f in LF[l]]) if LF[l] else BoolVal(False)
+        def k(ret, env, pc, ex=ex, shape=shape, LF=LF):
+            posts = [('returned level exceeds MAX_MEM_COMPACT_LEVEL', ULE(ret, bv(2)))]
+            for l in range(0, 3):
+                posts.append(('the flushed table is placed at or below a level holding an overlapping file (level %d)' % l,
+                              Or(Not(UGT(ret, bv(l))) if l else ret == bv(0), Not(ov(l))) if l == 0 else Or(ULT(ret, bv(l)), Not(ov(l)))))
+            def argv(m): return ['pick_level', str(mval(m, mfs)), key_bytes(mval(m, s_u)), key_bytes(mval(m, l_u))] + _levels_argv(m, LF)
+            bad = False
+            for label, post in posts:
+                ex.record_formula(label, pc, Not(post))
+                m = ex.model(Not(post))
+                if m is not None:
+                    bad = True; res.violations.append({'label': label, 'shape': list(shape), 'executor_result': mval(m, ret), 'replay': argv(m)})
+            if not bad and len(res.witnesses) < 4:
+                m = ex.model(); res.witnesses.append({'executor_result': mval(m, ret), 'replay': argv(m)})
+        env = {'$state': {}, '$v': mk_version(mir, lv), '$s': s_u, '$l': l_u}
+        ex.top(fn, [Ref('$v'), Ref('$s'), Ref('$l')], env, pre, k)
+        res.absorb(ex)
+        for pc, msg, where in ex.panics:
+            res.panic_paths += 1; res.violations.append({'label': 'panic path: ' + msg[:80], 'shape': list(shape), 'replay': None})
+    res.wall_s = time.time() - t0
+    if res.violations: res.status = 'violation'
+    return res
+
+
+def o7_4c_confirm(v, out):
+    if out.get('_rc') != 0: return (False, 'native run failed: %s' % out.get('_stderr', '')[-200:])
+    a = v['replay']; s, l = int(a[2], 16), int(a[3], 16); lv = _parse_levels(a[4:])
+    got = int(out['level'])
+    def ov(L): return any(f['sm'][0] <= l and s <= f['lg'][0] for f in lv.get(L, []))
+    bad = got > 2 or (got > 0 and ov(0)) or any(ov(L) for L in range(1, got + 1))
+    return (bad, 'native level %d; overlap per level %s' % (got, [ov(L) for L in range(4)]))
+
+
+def o7_4c_witness_ok(w, out):
+    return out.get('_rc') == 0 and int(out['level']) == w['executor_result']
